@@ -233,6 +233,47 @@ def c14(ctx):
                            "new and >= 1 spin or restart observed")
 
 
+# ------------------------------------------------------------- E2 qsbr_conc
+QSBR_RULE = ("episodes: the main thread paused, 2-4 initial qsbr_threads (up to 7 with spawns) choosing actions online from {take a reference to the object in a shared "
+             "slot, use, drop, retire (unlink + on_next_epoch_deallocate), quiescent, pause, resume, spawn, exit} with weights that depend on the visible QSBR state "
+             "(last thread of the previous epoch => prefer leaving; epoch change in progress => prefer spawn/pause/exit; pending requests => prefer quiescent), every "
+             "QSBR state/orphan-list atomic access (thread exit included) a scheduling point; PCT schedules with 0-4 priority-change points and random walks; each "
+             "episode ends with a lockstep drain (three rounds of one quiescent state per registered thread), threads exiting one by one, the last one passing two "
+             "quiescent states, then the main thread resumes and quiesces twice. ")
+
+
+def _qsbr_stages(ctx, prop, cases, execs):
+    extra = ["--prop", prop, "--execs", str(execs)]
+    ctx.stage("sched-dbg-asan", "qsbr_conc", "dbg-asan", worker_args(ctx.seed, cases, 16, extra), timeout=3600)
+    ctx.stage("sched-rel", "qsbr_conc", "rel", worker_args(ctx.seed + 4242, cases, 16, extra), timeout=3600)
+    ctx.assumptions = ["sequentially consistent interleavings at hook granularity; x86-TSO",
+                       "shadow registration uses call/return boundaries on the permissive side: a thread counts as registered from the return of its start/resume to the "
+                       "call of its pause/exit; it is discharged by a quiescent state or pause that returns after the retire, or while inside such a call / exiting / paused",
+                       "preconditions respected: no quiescent/pause with live references, no retire while paused"]
+    ctx.floors = [("episodes", 5000), ("retires_with_other_threads_registered", 5000), ("frees_deferred", 2000), ("frees_of_orphaned_requests", 1000),
+                  ("epoch_changes", 5000), ("drains_completed", 2000), ("shutdowns_checked", 2000), ("thread_count_checks", 10000), ("intra_operation_switches", 5000)]
+
+
+@prop("C05")
+def c05(ctx):
+    t = ctx.tier == "thorough"
+    _qsbr_stages(ctx, "C05", scaled(40000 if t else 2400), 40)
+    ctx.rule = QSBR_RULE + ("Oracles: reference oracle (a free notification for a retired object while another thread holds a reference to it; canaries checked on every "
+                            "use, ASan on every dereference) and trace rule (at the call of on_next_epoch_deallocate the set of other registered threads is snapshotted; "
+                            "a free while one of them is undischarged is a violation; an empty set is the only case in which an immediate free is allowed). An episode is "
+                            "distinct+non-trivial when (action trace, switch signature) is new, >= 1 retire happened with other threads registered and >= 1 free was deferred or orphaned")
+
+
+@prop("C06")
+def c06(ctx):
+    t = ctx.tier == "thorough"
+    _qsbr_stages(ctx, "C06", scaled(40000 if t else 2400), 40)
+    ctx.rule = QSBR_RULE + ("Oracles: one free notification per retired block (0->1 only, none for unretired blocks, none missing at the end); reported thread count == shadow "
+                            "count at every action boundary with no start/exit/pause/resume in flight; every request made before the drain is freed by the end of the third "
+                            "lockstep round; after all but one thread unregistered, two quiescent states leave the orphan lists, the thread's own lists and the harness's pending "
+                            "set empty. Distinct+non-trivial: as C05 and >= 1 request was orphaned or a leaving thread handled orphans")
+
+
 # ---------------------------------------------------------------- E7 qptr
 QPTR_TOTAL = {3: 291918, 4: 19266654, 5: 1271599230}
 
@@ -302,6 +343,7 @@ def setup_specs():
         ("seqmodel", "dbg-asan", {}),
         ("olc_conc", "dbg-asan", {}),
         ("olc_conc", "rel", {}),
+        ("qsbr_conc", "dbg-asan", {}), ("qsbr_conc", "rel", {}),
         ("lock_conc", "dbg", {}),
         ("qptr", "dbg", {}), ("qptr", "rel", {}), ("qptr", "dbg-asan", {}),
         ("mutex_lin", "rel", {"libs": ["-ldl"]}), ("mutex_lin", "rel-tsan", {"libs": ["-ldl"]}),
